@@ -1,1 +1,830 @@
-//! refpdf::cmap — not written yet.
+//! Reference CMap interpreter, written from Adobe Technical Notes #5014 ("CMap and CIDFont
+//! Files Specification") and #5411 ("ToUnicode Mapping File Tutorial") and ISO 32000-1
+//! §9.7.5-9.7.6 (CMaps, code space ranges) and §9.10.3 (ToUnicode CMaps). Independent of /repo.
+//!
+//! What the sources fix, and what this module does with it:
+//!
+//! * **Syntax.** A CMap file is PostScript: whitespace-separated tokens, `%` comments, `/names`,
+//!   `<hex strings>` (white space inside is ignored, an odd final digit is padded with 0),
+//!   `(literal strings)`, `<< dictionaries >>`, `[arrays]`, integers, and operator keywords.
+//!   Only the sections below carry mapping information; everything else is skipped.
+//! * **Code space** (`begincodespacerange`, 1-4 byte codes, ranges of different lengths may
+//!   be mixed). ISO 32000-1 §9.7.6.2: "A code shall be considered to match the range if it is
+//!   the same length as the bounding codes and the value of each of its bytes lies between the
+//!   corresponding bytes of the lower and upper bounds." — per-byte (rectangular) membership,
+//!   not an interval of the integer value: `<8140> <9FFC>` contains `<8240>` and not `<8200>`.
+//! * **`beginbfchar`**: `<src> <dst>`; dst is a string of UTF-16BE code units (one character,
+//!   a surrogate pair, or several characters).
+//! * **`beginbfrange`, offset form** `<lo> <hi> <dst>`: code `lo+k` maps to dst with its
+//!   **last byte** incremented k times (§9.10.3). §9.10.3 continues: "When defining ranges of
+//!   this type, the value of the last byte in the string shall be less than or equal to
+//!   255 - (srcCode2 - srcCode1). This ensures that the last byte of the string shall not be
+//!   incremented past 255; otherwise, the result of mapping is undefined." So the reading is
+//!   *undefined* there: `Value::CarryUndefined` lists every defensible reading (last byte
+//!   wraps; carry into the last UTF-16 unit; carry through the whole string); a reader may
+//!   take any of them, and a writer must not produce such a range.
+//! * **`beginbfrange`, array form** `<lo> <hi> [<d0> <d1> ...]`: code `lo+k` maps to `dk`.
+//!   The array must have exactly `hi-lo+1` elements; anything else is a parse error here.
+//! * **Source ranges** `<lo> <hi>` have equal lengths and denote the codes whose big-endian
+//!   value lies in `lo..=hi`. (TN5014 asks producers to let only the last byte vary; when
+//!   they do not — the ubiquitous `<0000> <FFFF> <0000>` identity range — every consumer takes
+//!   the integer interval, which is the only reading consistent with the array form's
+//!   element count. This is an assumption of the reference and is stated by the checks.)
+//! * **Several entries for one code**: the formats do not order bfchar against bfrange, so
+//!   `candidates()` returns the value of every covering entry, in file order.
+//! * `begincidchar` / `begincidrange` / `beginnotdefrange` (code -> CID) are parsed too, for
+//!   the checks that need an Encoding CMap; `usecmap`, `/CMapName`, `/WMode` are recorded.
+
+#[derive(Clone, Debug, PartialEq, Eq)]
+pub struct CodeSpaceRange {
+    pub lo: Vec<u8>,
+    pub hi: Vec<u8>,
+}
+
+impl CodeSpaceRange {
+    /// §9.7.6.2: same length, every byte within the corresponding bounds.
+    pub fn contains(&self, code: &[u8]) -> bool {
+        code.len() == self.lo.len() && code.iter().zip(self.lo.iter().zip(self.hi.iter())).all(|(c, (l, h))| l <= c && c <= h)
+    }
+}
+
+#[derive(Clone, Debug, PartialEq, Eq)]
+pub enum Entry {
+    BfChar { src: Vec<u8>, dst: Vec<u8> },
+    BfRange { lo: Vec<u8>, hi: Vec<u8>, dst: Vec<u8> },
+    BfRangeArray { lo: Vec<u8>, hi: Vec<u8>, dsts: Vec<Vec<u8>> },
+    CidChar { src: Vec<u8>, cid: u32 },
+    CidRange { lo: Vec<u8>, hi: Vec<u8>, cid: u32 },
+    NotdefRange { lo: Vec<u8>, hi: Vec<u8>, cid: u32 },
+}
+
+/// What a bf entry says about one code.
+#[derive(Clone, Debug, PartialEq, Eq, Hash)]
+pub enum Value {
+    /// the destination bytes (UTF-16BE) are fixed by the sources
+    Exact(Vec<u8>),
+    /// offset-form range whose last destination byte would pass 0xFF: undefined; the
+    /// defensible readings are listed (deduplicated)
+    CarryUndefined(Vec<Vec<u8>>),
+}
+
+#[derive(Clone, Debug, Default, PartialEq, Eq)]
+pub struct CMap {
+    pub name: Option<String>,
+    pub wmode: Option<i64>,
+    pub usecmap: Option<String>,
+    pub codespace: Vec<CodeSpaceRange>,
+    pub entries: Vec<Entry>,
+}
+
+pub fn be_value(b: &[u8]) -> u64 {
+    b.iter().fold(0u64, |a, &x| (a << 8) | x as u64)
+}
+
+pub fn be_bytes(v: u64, len: usize) -> Vec<u8> {
+    (0..len).rev().map(|i| (v >> (8 * i)) as u8).collect()
+}
+
+fn in_interval(code: &[u8], lo: &[u8], hi: &[u8]) -> Option<u64> {
+    if code.len() != lo.len() {
+        return None;
+    }
+    let (c, l, h) = (be_value(code), be_value(lo), be_value(hi));
+    if l <= c && c <= h {
+        Some(c - l)
+    } else {
+        None
+    }
+}
+
+/// `dst` with its last byte incremented `k` times.
+pub fn offset_destination(dst: &[u8], k: u64) -> Value {
+    let Some(&last) = dst.last() else { return Value::Exact(Vec::new()) };
+    if last as u64 + k <= 0xFF {
+        let mut v = dst.to_vec();
+        *v.last_mut().unwrap() = (last as u64 + k) as u8;
+        return Value::Exact(v);
+    }
+    let n = dst.len();
+    let mut readings: Vec<Vec<u8>> = Vec::new();
+    // (a) last byte wraps, nothing else changes
+    let mut a = dst.to_vec();
+    a[n - 1] = ((last as u64 + k) & 0xFF) as u8;
+    readings.push(a);
+    // (b) carry into the last UTF-16 code unit only
+    if n >= 2 {
+        let unit = ((dst[n - 2] as u64) << 8 | last as u64).wrapping_add(k) & 0xFFFF;
+        let mut b = dst.to_vec();
+        b[n - 2] = (unit >> 8) as u8;
+        b[n - 1] = unit as u8;
+        readings.push(b);
+    }
+    // (c) carry through the whole string (big-endian integer addition, overflow dropped)
+    let mut c = dst.to_vec();
+    let mut carry = k;
+    for byte in c.iter_mut().rev() {
+        let s = *byte as u64 + (carry & 0xFF);
+        *byte = s as u8;
+        carry = (carry >> 8) + (s >> 8);
+    }
+    readings.push(c);
+    readings.sort();
+    readings.dedup();
+    Value::CarryUndefined(readings)
+}
+
+impl Entry {
+    /// source length of the entry
+    pub fn src_len(&self) -> usize {
+        match self {
+            Entry::BfChar { src, .. } | Entry::CidChar { src, .. } => src.len(),
+            Entry::BfRange { lo, .. }
+            | Entry::BfRangeArray { lo, .. }
+            | Entry::CidRange { lo, .. }
+            | Entry::NotdefRange { lo, .. } => lo.len(),
+        }
+    }
+    /// Does the entry say anything about `code`?
+    pub fn covers(&self, code: &[u8]) -> bool {
+        match self {
+            Entry::BfChar { src, .. } | Entry::CidChar { src, .. } => src == code,
+            Entry::BfRange { lo, hi, .. }
+            | Entry::BfRangeArray { lo, hi, .. }
+            | Entry::CidRange { lo, hi, .. }
+            | Entry::NotdefRange { lo, hi, .. } => in_interval(code, lo, hi).is_some(),
+        }
+    }
+    /// The Unicode destination a bf entry gives `code`; None for codes it does not cover and
+    /// for cid/notdef entries.
+    pub fn bf_value(&self, code: &[u8]) -> Option<Value> {
+        match self {
+            Entry::BfChar { src, dst } => (src == code).then(|| Value::Exact(dst.clone())),
+            Entry::BfRange { lo, hi, dst } => in_interval(code, lo, hi).map(|k| offset_destination(dst, k)),
+            Entry::BfRangeArray { lo, hi, dsts } => {
+                in_interval(code, lo, hi).and_then(|k| dsts.get(k as usize)).map(|d| Value::Exact(d.clone()))
+            }
+            _ => None,
+        }
+    }
+    /// The CID a cidchar/cidrange entry gives `code`.
+    pub fn cid_value(&self, code: &[u8]) -> Option<u32> {
+        match self {
+            Entry::CidChar { src, cid } => (src == code).then_some(*cid),
+            Entry::CidRange { lo, hi, cid } => in_interval(code, lo, hi).map(|k| cid.wrapping_add(k as u32)),
+            _ => None,
+        }
+    }
+}
+
+#[derive(Clone, Debug, PartialEq)]
+enum Tok {
+    Hex(Vec<u8>),
+    Name(String),
+    Int(i64),
+    Kw(String),
+    ArrOpen,
+    ArrClose,
+    Other,
+}
+
+fn is_ps_ws(b: u8) -> bool {
+    matches!(b, 0 | 9 | 10 | 12 | 13 | 32)
+}
+fn is_ps_delim(b: u8) -> bool {
+    matches!(b, b'(' | b')' | b'<' | b'>' | b'[' | b']' | b'{' | b'}' | b'/' | b'%')
+}
+
+fn tokenize(data: &[u8]) -> Result<Vec<Tok>, String> {
+    let mut t = Vec::new();
+    let mut i = 0;
+    while i < data.len() {
+        let b = data[i];
+        if is_ps_ws(b) {
+            i += 1;
+        } else if b == b'%' {
+            while i < data.len() && data[i] != b'\n' && data[i] != b'\r' {
+                i += 1;
+            }
+        } else if b == b'<' && data.get(i + 1) == Some(&b'<') {
+            t.push(Tok::Other);
+            i += 2;
+        } else if b == b'>' && data.get(i + 1) == Some(&b'>') {
+            t.push(Tok::Other);
+            i += 2;
+        } else if b == b'<' {
+            let mut digits: Vec<u8> = Vec::new();
+            i += 1;
+            loop {
+                let Some(&c) = data.get(i) else { return Err("unterminated hex string".into()) };
+                i += 1;
+                if c == b'>' {
+                    break;
+                }
+                if is_ps_ws(c) {
+                    continue;
+                }
+                let v = (c as char).to_digit(16).ok_or_else(|| format!("bad hex digit {:?} at {}", c as char, i - 1))?;
+                digits.push(v as u8);
+            }
+            if digits.len() % 2 == 1 {
+                digits.push(0);
+            }
+            t.push(Tok::Hex(digits.chunks(2).map(|p| p[0] << 4 | p[1]).collect()));
+        } else if b == b'(' {
+            let mut depth = 1;
+            i += 1;
+            while depth > 0 {
+                let Some(&c) = data.get(i) else { return Err("unterminated literal string".into()) };
+                i += 1;
+                match c {
+                    b'\\' => i += 1,
+                    b'(' => depth += 1,
+                    b')' => depth -= 1,
+                    _ => {}
+                }
+            }
+            t.push(Tok::Other);
+        } else if b == b'[' {
+            t.push(Tok::ArrOpen);
+            i += 1;
+        } else if b == b']' {
+            t.push(Tok::ArrClose);
+            i += 1;
+        } else if b == b'{' || b == b'}' || b == b')' || b == b'>' {
+            t.push(Tok::Other);
+            i += 1;
+        } else if b == b'/' {
+            let s = i + 1;
+            i = s;
+            while i < data.len() && !is_ps_ws(data[i]) && !is_ps_delim(data[i]) {
+                i += 1;
+            }
+            t.push(Tok::Name(String::from_utf8_lossy(&data[s..i]).into_owned()));
+        } else {
+            let s = i;
+            while i < data.len() && !is_ps_ws(data[i]) && !is_ps_delim(data[i]) {
+                i += 1;
+            }
+            let w = String::from_utf8_lossy(&data[s..i]).into_owned();
+            match w.parse::<i64>() {
+                Ok(n) => t.push(Tok::Int(n)),
+                Err(_) => t.push(Tok::Kw(w)),
+            }
+        }
+    }
+    Ok(t)
+}
+
+fn check_code_len(c: &[u8], what: &str) -> Result<(), String> {
+    if (1..=4).contains(&c.len()) {
+        Ok(())
+    } else {
+        Err(format!("{what}: code length {} outside 1..=4", c.len()))
+    }
+}
+
+fn check_range(lo: &[u8], hi: &[u8], what: &str) -> Result<(), String> {
+    check_code_len(lo, what)?;
+    if lo.len() != hi.len() {
+        return Err(format!("{what}: bounds of different length"));
+    }
+    if be_value(lo) > be_value(hi) {
+        return Err(format!("{what}: low bound above high bound"));
+    }
+    Ok(())
+}
+
+impl CMap {
+    /// Strict parse: structural errors in a mapping section are errors, not skipped.
+    pub fn parse(data: &[u8]) -> Result<CMap, String> {
+        let toks = tokenize(data)?;
+        let mut m = CMap::default();
+        let mut i = 0;
+        // collect the operands of a section up to its end keyword
+        fn section<'a>(toks: &'a [Tok], i: &mut usize, end: &str) -> Result<&'a [Tok], String> {
+            let s = *i;
+            while *i < toks.len() {
+                if toks[*i] == Tok::Kw(end.to_string()) {
+                    let r = &toks[s..*i];
+                    *i += 1;
+                    return Ok(r);
+                }
+                *i += 1;
+            }
+            Err(format!("missing {end}"))
+        }
+        fn declared(toks: &[Tok], at: usize) -> Option<i64> {
+            match at.checked_sub(1).and_then(|p| toks.get(p)) {
+                Some(Tok::Int(n)) => Some(*n),
+                _ => None,
+            }
+        }
+        while i < toks.len() {
+            let kw = match &toks[i] {
+                Tok::Kw(k) => k.clone(),
+                Tok::Name(n) if n == "CMapName" => {
+                    if let Some(Tok::Name(v)) = toks.get(i + 1) {
+                        m.name = Some(v.clone());
+                    }
+                    i += 1;
+                    continue;
+                }
+                Tok::Name(n) if n == "WMode" => {
+                    if let Some(Tok::Int(v)) = toks.get(i + 1) {
+                        m.wmode = Some(*v);
+                    }
+                    i += 1;
+                    continue;
+                }
+                _ => {
+                    i += 1;
+                    continue;
+                }
+            };
+            let at = i;
+            i += 1;
+            match kw.as_str() {
+                "usecmap" => {
+                    if let Some(Tok::Name(n)) = at.checked_sub(1).and_then(|p| toks.get(p)) {
+                        m.usecmap = Some(n.clone());
+                    } else {
+                        return Err("usecmap without a name operand".into());
+                    }
+                }
+                "begincodespacerange" => {
+                    let ops = section(&toks, &mut i, "endcodespacerange")?;
+                    if ops.len() % 2 != 0 {
+                        return Err("codespacerange: odd number of operands".into());
+                    }
+                    if let Some(n) = declared(&toks, at) {
+                        if n as usize != ops.len() / 2 {
+                            return Err(format!("codespacerange: declared {n}, found {}", ops.len() / 2));
+                        }
+                    }
+                    for p in ops.chunks(2) {
+                        match (&p[0], &p[1]) {
+                            (Tok::Hex(lo), Tok::Hex(hi)) => {
+                                check_code_len(lo, "codespacerange")?;
+                                if lo.len() != hi.len() {
+                                    return Err("codespacerange: bounds of different length".into());
+                                }
+                                if lo.iter().zip(hi.iter()).any(|(l, h)| l > h) {
+                                    return Err("codespacerange: a low byte above its high byte".into());
+                                }
+                                m.codespace.push(CodeSpaceRange { lo: lo.clone(), hi: hi.clone() });
+                            }
+                            _ => return Err("codespacerange: operands must be hex strings".into()),
+                        }
+                    }
+                }
+                "beginbfchar" => {
+                    let ops = section(&toks, &mut i, "endbfchar")?;
+                    if ops.len() % 2 != 0 {
+                        return Err("bfchar: odd number of operands".into());
+                    }
+                    if let Some(n) = declared(&toks, at) {
+                        if n as usize != ops.len() / 2 {
+                            return Err(format!("bfchar: declared {n}, found {}", ops.len() / 2));
+                        }
+                    }
+                    for p in ops.chunks(2) {
+                        match (&p[0], &p[1]) {
+                            (Tok::Hex(src), Tok::Hex(dst)) => {
+                                check_code_len(src, "bfchar")?;
+                                m.entries.push(Entry::BfChar { src: src.clone(), dst: dst.clone() });
+                            }
+                            // TN5014 also allows a glyph name as destination; no Unicode value
+                            (Tok::Hex(_), Tok::Name(_)) => {}
+                            _ => return Err("bfchar: operands must be <src> <dst>".into()),
+                        }
+                    }
+                }
+                "beginbfrange" => {
+                    let ops = section(&toks, &mut i, "endbfrange")?;
+                    let mut j = 0;
+                    let mut count = 0;
+                    while j < ops.len() {
+                        let (lo, hi) = match (ops.get(j), ops.get(j + 1)) {
+                            (Some(Tok::Hex(lo)), Some(Tok::Hex(hi))) => (lo.clone(), hi.clone()),
+                            _ => return Err("bfrange: expected <lo> <hi>".into()),
+                        };
+                        check_range(&lo, &hi, "bfrange")?;
+                        match ops.get(j + 2) {
+                            Some(Tok::Hex(dst)) => {
+                                m.entries.push(Entry::BfRange { lo, hi, dst: dst.clone() });
+                                j += 3;
+                            }
+                            Some(Tok::ArrOpen) => {
+                                let mut dsts = Vec::new();
+                                j += 3;
+                                loop {
+                                    match ops.get(j) {
+                                        Some(Tok::Hex(d)) => dsts.push(d.clone()),
+                                        Some(Tok::Name(_)) => return Err("bfrange: glyph-name array not supported".into()),
+                                        Some(Tok::ArrClose) => {
+                                            j += 1;
+                                            break;
+                                        }
+                                        _ => return Err("bfrange: unterminated destination array".into()),
+                                    }
+                                    j += 1;
+                                }
+                                let want = be_value(&hi) - be_value(&lo) + 1;
+                                if dsts.len() as u64 != want {
+                                    return Err(format!("bfrange: array has {} elements for {want} codes", dsts.len()));
+                                }
+                                m.entries.push(Entry::BfRangeArray { lo, hi, dsts });
+                            }
+                            _ => return Err("bfrange: expected <dst> or [array]".into()),
+                        }
+                        count += 1;
+                    }
+                    if let Some(n) = declared(&toks, at) {
+                        if n != count {
+                            return Err(format!("bfrange: declared {n}, found {count}"));
+                        }
+                    }
+                }
+                "begincidchar" => {
+                    let ops = section(&toks, &mut i, "endcidchar")?;
+                    if ops.len() % 2 != 0 {
+                        return Err("cidchar: odd number of operands".into());
+                    }
+                    for p in ops.chunks(2) {
+                        match (&p[0], &p[1]) {
+                            (Tok::Hex(src), Tok::Int(c)) if *c >= 0 => {
+                                check_code_len(src, "cidchar")?;
+                                m.entries.push(Entry::CidChar { src: src.clone(), cid: *c as u32 });
+                            }
+                            _ => return Err("cidchar: operands must be <src> cid".into()),
+                        }
+                    }
+                }
+                k @ ("begincidrange" | "beginnotdefrange") => {
+                    let end = if k == "begincidrange" { "endcidrange" } else { "endnotdefrange" };
+                    let ops = section(&toks, &mut i, end)?;
+                    if ops.len() % 3 != 0 {
+                        return Err(format!("{k}: operands not in triples"));
+                    }
+                    for p in ops.chunks(3) {
+                        match (&p[0], &p[1], &p[2]) {
+                            (Tok::Hex(lo), Tok::Hex(hi), Tok::Int(c)) if *c >= 0 => {
+                                check_range(lo, hi, k)?;
+                                let (lo, hi, cid) = (lo.clone(), hi.clone(), *c as u32);
+                                m.entries.push(if k == "begincidrange" {
+                                    Entry::CidRange { lo, hi, cid }
+                                } else {
+                                    Entry::NotdefRange { lo, hi, cid }
+                                });
+                            }
+                            _ => return Err(format!("{k}: operands must be <lo> <hi> cid")),
+                        }
+                    }
+                }
+                _ => {}
+            }
+        }
+        Ok(m)
+    }
+
+    /// Code space membership (§9.7.6.2).
+    pub fn in_codespace(&self, code: &[u8]) -> bool {
+        self.codespace.iter().any(|r| r.contains(code))
+    }
+
+    /// Value of every bf entry that covers `code`, in file order.
+    pub fn candidates(&self, code: &[u8]) -> Vec<Value> {
+        self.entries.iter().filter_map(|e| e.bf_value(code)).collect()
+    }
+
+    /// CID of every cid entry that covers `code`, in file order.
+    pub fn cid_candidates(&self, code: &[u8]) -> Vec<u32> {
+        self.entries.iter().filter_map(|e| e.cid_value(code)).collect()
+    }
+
+    /// Length of the next character code at the start of `bytes` (TN5014 §7.1 / ISO 32000-1
+    /// §9.7.6.2): the shortest prefix that matches a code space range; None if no prefix of
+    /// 1..=4 bytes does (an invalid code).
+    pub fn next_code_len(&self, bytes: &[u8]) -> Option<usize> {
+        (1..=bytes.len().min(4)).find(|&n| self.in_codespace(&bytes[..n]))
+    }
+
+    /// The exact code -> destination map, when the CMap is unambiguous: every covered code has
+    /// one covering entry and no undefined carry. Err describes the first ambiguity. Only for
+    /// CMaps whose ranges are small (it enumerates them).
+    pub fn exact_map(&self) -> Result<std::collections::BTreeMap<Vec<u8>, Vec<u8>>, String> {
+        let mut out = std::collections::BTreeMap::new();
+        let mut put = |code: Vec<u8>, v: Value| -> Result<(), String> {
+            let Value::Exact(d) = v else { return Err(format!("undefined carry at <{}>", hex(&code))) };
+            if out.insert(code.clone(), d).is_some() {
+                return Err(format!("code <{}> covered twice", hex(&code)));
+            }
+            Ok(())
+        };
+        for e in &self.entries {
+            match e {
+                Entry::BfChar { src, dst } => put(src.clone(), Value::Exact(dst.clone()))?,
+                Entry::BfRange { lo, hi, .. } | Entry::BfRangeArray { lo, hi, .. } => {
+                    let (l, h) = (be_value(lo), be_value(hi));
+                    if h - l > 1 << 20 {
+                        return Err("range too large to enumerate".into());
+                    }
+                    for v in l..=h {
+                        let code = be_bytes(v, lo.len());
+                        let val = e.bf_value(&code).ok_or("internal: range does not cover its own code")?;
+                        put(code, val)?;
+                    }
+                }
+                _ => {}
+            }
+        }
+        Ok(out)
+    }
+}
+
+/// UTF-16BE destination -> text; None if the bytes are not well-formed UTF-16 (odd length,
+/// unpaired surrogate) — the sources define no reading for those.
+pub fn utf16be_to_string(b: &[u8]) -> Option<String> {
+    if b.len() % 2 != 0 {
+        return None;
+    }
+    let units: Vec<u16> = b.chunks(2).map(|p| (p[0] as u16) << 8 | p[1] as u16).collect();
+    char::decode_utf16(units).collect::<Result<String, _>>().ok()
+}
+
+pub fn string_to_utf16be(s: &str) -> Vec<u8> {
+    s.encode_utf16().flat_map(|u| u.to_be_bytes()).collect()
+}
+
+pub fn hex(b: &[u8]) -> String {
+    b.iter().map(|x| format!("{x:02X}")).collect()
+}
+
+#[cfg(test)]
+mod tests {
+    use super::*;
+
+    fn one(m: &CMap, code: &[u8]) -> Option<String> {
+        let c = m.candidates(code);
+        assert!(c.len() <= 1, "{c:?}");
+        c.first().map(|v| match v {
+            Value::Exact(d) => utf16be_to_string(d).unwrap(),
+            other => panic!("{other:?}"),
+        })
+    }
+
+    /// ISO 32000-1 §9.10.3 EXAMPLE 2 (the ToUnicode CMap of the standard), complete.
+    #[test]
+    fn iso_32000_tounicode_example() {
+        let text = br#"/CIDInit /ProcSet findresource begin
+12 dict begin
+begincmap
+/CIDSystemInfo
+<< /Registry (Adobe)
+/Ordering (UCS)
+/Supplement 0
+>> def
+/CMapName /Adobe-Identity-UCS def
+/CMapType 2 def
+1 begincodespacerange
+<0000> <FFFF>
+endcodespacerange
+2 beginbfrange
+<0000> <005E> <0020>
+<005F> <0061> [<00660066> <00660069> <00660066006C>]
+endbfrange
+1 beginbfchar
+<3A51> <D840DC3E>
+endbfchar
+endcmap
+CMapName currentdict /CMap defineresource pop
+end
+end
+"#;
+        let m = CMap::parse(text).unwrap();
+        assert_eq!(m.name.as_deref(), Some("Adobe-Identity-UCS"));
+        assert_eq!(m.codespace, vec![CodeSpaceRange { lo: vec![0, 0], hi: vec![0xFF, 0xFF] }]);
+        assert_eq!(m.entries.len(), 3);
+        // "<0000> to <005E> are mapped to U+0020 to U+007E"
+        assert_eq!(one(&m, &[0, 0]).as_deref(), Some(" "));
+        assert_eq!(one(&m, &[0, 0x21]).as_deref(), Some("A"));
+        assert_eq!(one(&m, &[0, 0x5E]).as_deref(), Some("~"));
+        // "<005F> ff, <0060> fi, <0061> ffl"
+        assert_eq!(one(&m, &[0, 0x5F]).as_deref(), Some("ff"));
+        assert_eq!(one(&m, &[0, 0x60]).as_deref(), Some("fi"));
+        assert_eq!(one(&m, &[0, 0x61]).as_deref(), Some("ffl"));
+        // "<3A51> is mapped to the Unicode character U+2003E, expressed as a surrogate pair"
+        assert_eq!(one(&m, &[0x3A, 0x51]).as_deref(), Some("\u{2003E}"));
+        assert_eq!(one(&m, &[0, 0x62]), None);
+        assert_eq!(one(&m, &[0x3A, 0x50]), None);
+        assert!(m.in_codespace(&[0x12, 0x34]));
+        assert!(!m.in_codespace(&[0x12]));
+        assert!(!m.in_codespace(&[0, 0, 0]));
+        assert_eq!(m.exact_map().unwrap().len(), 0x5F + 3 + 1);
+    }
+
+    /// TN5014 §7.1: the four code space ranges of 83pv-RKSJ-H (also ISO 32000-1 §9.7.6.2).
+    #[test]
+    fn tn5014_mixed_width_codespace() {
+        let m = CMap::parse(b"4 begincodespacerange <00> <80> <8140> <9FFC> <A0> <DF> <E040> <FCFC> endcodespacerange").unwrap();
+        assert_eq!(m.codespace.len(), 4);
+        for (code, inside) in [
+            (&[0x00u8][..], true),
+            (&[0x80], true),
+            (&[0x81], false),
+            (&[0xA0], true),
+            (&[0xDF], true),
+            (&[0xE0], false),
+            (&[0xFF], false),
+            (&[0x81, 0x40], true),
+            (&[0x9F, 0xFC], true),
+            (&[0x81, 0x3F], false), // second byte below its bound
+            (&[0x9F, 0xFD], false), // second byte above its bound
+            (&[0x82, 0x00], false), // inside the integer interval, outside the byte rectangle
+            (&[0x82, 0xFF], false),
+            (&[0x90, 0x80], true),
+            (&[0xA0, 0x40], false),
+            (&[0xE0, 0x40], true),
+            (&[0xFC, 0xFC], true),
+            (&[0xFD, 0x40], false),
+            (&[0x00, 0x00], false),
+        ] {
+            assert_eq!(m.in_codespace(code), inside, "{code:02X?}");
+        }
+        // code extraction from a string: 1-byte, 2-byte, 1-byte, 2-byte, then an invalid lead
+        assert_eq!(m.next_code_len(&[0x41, 0x81, 0x40]), Some(1));
+        assert_eq!(m.next_code_len(&[0x81, 0x40, 0x41]), Some(2));
+        assert_eq!(m.next_code_len(&[0xB1, 0x81]), Some(1));
+        assert_eq!(m.next_code_len(&[0xE0, 0x40]), Some(2));
+        assert_eq!(m.next_code_len(&[0x81, 0x3F]), None);
+        assert_eq!(m.next_code_len(&[0xFF]), None);
+    }
+
+    /// TN5014 cid sections and the EUC-style 4-byte code space.
+    #[test]
+    fn tn5014_cid_sections_and_four_byte_codes() {
+        let m = CMap::parse(
+            b"/CMapName /T def /WMode 1 def /Base usecmap\n\
+              3 begincodespacerange <00> <80> <8EA1A1A1> <8EA2FEFE> <A1A1> <FEFE> endcodespacerange\n\
+              1 begincidchar <8EA1A1A1> 17 endcidchar\n\
+              2 begincidrange <20> <7E> 1 <A1A1> <A1FE> 633 endcidrange\n\
+              1 beginnotdefrange <00> <1F> 1 endnotdefrange",
+        )
+        .unwrap();
+        assert_eq!(m.wmode, Some(1));
+        assert_eq!(m.usecmap.as_deref(), Some("Base"));
+        assert!(m.in_codespace(&[0x8E, 0xA1, 0xA1, 0xA1]));
+        assert!(m.in_codespace(&[0x8E, 0xA2, 0xFE, 0xFE]));
+        assert!(!m.in_codespace(&[0x8E, 0xA2, 0xFE, 0xFF]));
+        assert!(!m.in_codespace(&[0x8E, 0xA2, 0xA0, 0xB0])); // third byte below A1
+        assert!(!m.in_codespace(&[0x8E, 0xA3, 0xA1, 0xA1]));
+        assert_eq!(m.cid_candidates(&[0x8E, 0xA1, 0xA1, 0xA1]), vec![17]);
+        assert_eq!(m.cid_candidates(&[0x20]), vec![1]);
+        assert_eq!(m.cid_candidates(&[0x7E]), vec![95]);
+        assert_eq!(m.cid_candidates(&[0xA1, 0xA3]), vec![635]);
+        assert_eq!(m.cid_candidates(&[0x1F]), Vec::<u32>::new());
+        assert_eq!(m.next_code_len(&[0x8E, 0xA1, 0xA1, 0xA1, 0x41]), Some(4));
+        assert_eq!(m.next_code_len(&[0xA1, 0xA1]), Some(2));
+    }
+
+    #[test]
+    fn offset_form_increments_the_last_byte() {
+        // TN5411: <srcLo> <srcHi> <dstLo>: destination's last byte incremented per code
+        let m = CMap::parse(b"1 begincodespacerange <0000> <FFFF> endcodespacerange 3 beginbfrange <00FE> <0101> <0041> <0200> <0202> <D83DDE00> <0300> <0301> <00660069> endbfrange").unwrap();
+        // source range crosses a byte boundary: 00FE 00FF 0100 0101 -> A B C D
+        assert_eq!(one(&m, &[0x00, 0xFE]).as_deref(), Some("A"));
+        assert_eq!(one(&m, &[0x00, 0xFF]).as_deref(), Some("B"));
+        assert_eq!(one(&m, &[0x01, 0x00]).as_deref(), Some("C"));
+        assert_eq!(one(&m, &[0x01, 0x01]).as_deref(), Some("D"));
+        assert_eq!(one(&m, &[0x01, 0x02]), None);
+        assert_eq!(one(&m, &[0x00, 0xFD]), None);
+        // surrogate pair: only the last byte moves
+        assert_eq!(one(&m, &[0x02, 0x00]).as_deref(), Some("\u{1F600}"));
+        assert_eq!(one(&m, &[0x02, 0x02]).as_deref(), Some("\u{1F602}"));
+        // two characters: "fi" -> "fj"
+        assert_eq!(one(&m, &[0x03, 0x01]).as_deref(), Some("fj"));
+        // one-byte codes are not covered by two-byte entries
+        assert_eq!(one(&m, &[0xFE]), None);
+    }
+
+    #[test]
+    fn carry_out_of_the_last_byte_is_reported_as_undefined() {
+        assert_eq!(offset_destination(&[0x00, 0xFE], 1), Value::Exact(vec![0x00, 0xFF]));
+        assert_eq!(
+            offset_destination(&[0x00, 0xFE], 2),
+            Value::CarryUndefined(vec![vec![0x00, 0x00], vec![0x01, 0x00]])
+        );
+        assert_eq!(offset_destination(&[0xFF, 0xFF], 1), Value::CarryUndefined(vec![vec![0x00, 0x00], vec![0xFF, 0x00]]));
+        // four bytes: wrap / carry into last unit / carry through (the last two coincide here)
+        assert_eq!(
+            offset_destination(&[0xD8, 0x3D, 0xDF, 0xFF], 1),
+            Value::CarryUndefined(vec![vec![0xD8, 0x3D, 0xDF, 0x00], vec![0xD8, 0x3D, 0xE0, 0x00]])
+        );
+        // carry through differs from carry-in-unit when the last unit overflows
+        assert_eq!(
+            offset_destination(&[0x00, 0x41, 0xFF, 0xFF], 1),
+            Value::CarryUndefined(vec![vec![0x00, 0x41, 0x00, 0x00], vec![0x00, 0x41, 0xFF, 0x00], vec![0x00, 0x42, 0x00, 0x00]])
+        );
+        let m = CMap::parse(b"1 beginbfrange <00> <02> <00FE> endbfrange").unwrap();
+        assert!(m.exact_map().is_err());
+    }
+
+    #[test]
+    fn overlapping_entries_give_every_candidate_in_file_order() {
+        let m = CMap::parse(b"1 beginbfchar <41> <0058> endbfchar 1 beginbfrange <40> <42> <0061> endbfrange 1 beginbfchar <41> <0059> endbfchar").unwrap();
+        assert_eq!(
+            m.candidates(&[0x41]),
+            vec![Value::Exact(vec![0, 0x58]), Value::Exact(vec![0, 0x62]), Value::Exact(vec![0, 0x59])]
+        );
+        assert_eq!(m.candidates(&[0x40]), vec![Value::Exact(vec![0, 0x61])]);
+        assert!(m.exact_map().is_err());
+    }
+
+    #[test]
+    fn postscript_syntax_details() {
+        // one line, no spaces between strings, comment, white space inside hex, odd digit padded
+        let m = CMap::parse(b"%!PS-Adobe-3.0 Resource-CMap\n1 begincodespacerange<00><FF>endcodespacerange 2 beginbfchar<41><00 41>\n<4 2> <004>endbfchar % trailing").unwrap();
+        assert_eq!(m.codespace.len(), 1);
+        assert_eq!(m.entries, vec![
+            Entry::BfChar { src: vec![0x41], dst: vec![0x00, 0x41] },
+            Entry::BfChar { src: vec![0x42], dst: vec![0x00, 0x40] },
+        ]);
+        // lower-case hex
+        let m = CMap::parse(b"1 beginbfrange <00fe> <00ff> [<d83d de00> <ffff>] endbfrange").unwrap();
+        assert_eq!(one(&m, &[0x00, 0xFE]).as_deref(), Some("\u{1F600}"));
+        assert_eq!(one(&m, &[0x00, 0xFF]).as_deref(), Some("\u{FFFF}"));
+        // structural errors
+        assert!(CMap::parse(b"1 beginbfchar <41> endbfchar").is_err());
+        assert!(CMap::parse(b"1 beginbfchar <41> <0041>").is_err());
+        assert!(CMap::parse(b"1 beginbfrange <41> <42> [<0041>] endbfrange").is_err());
+        assert!(CMap::parse(b"1 beginbfrange <0041> <42> <0041> endbfrange").is_err());
+        assert!(CMap::parse(b"1 beginbfrange <42> <41> <0041> endbfrange").is_err());
+        assert!(CMap::parse(b"2 beginbfchar <41> <0041> endbfchar").is_err());
+        assert!(CMap::parse(b"1 begincodespacerange <0000000000> <FFFFFFFFFF> endcodespacerange").is_err());
+        assert!(CMap::parse(b"1 beginbfchar <4G> <0041> endbfchar").is_err());
+    }
+
+    #[test]
+    fn utf16_destinations() {
+        assert_eq!(utf16be_to_string(&[0x00, 0x41]).as_deref(), Some("A"));
+        assert_eq!(utf16be_to_string(&[0xD8, 0x3D, 0xDE, 0x00]).as_deref(), Some("\u{1F600}"));
+        assert_eq!(utf16be_to_string(&[0x00, 0x66, 0x00, 0x69]).as_deref(), Some("fi"));
+        assert_eq!(utf16be_to_string(&[0xFF, 0xFF]).as_deref(), Some("\u{FFFF}"));
+        assert_eq!(utf16be_to_string(&[0xD8, 0x3D]), None);
+        assert_eq!(utf16be_to_string(&[0xDE, 0x00, 0xD8, 0x3D]), None);
+        assert_eq!(utf16be_to_string(&[0x41]), None);
+        assert_eq!(utf16be_to_string(&[]).as_deref(), Some(""));
+        for s in ["A", "\u{1F600}", "fi", "\u{FFFF}", "\u{10FFFF}", ""] {
+            assert_eq!(utf16be_to_string(&string_to_utf16be(s)).as_deref(), Some(s));
+        }
+        // cross-check the surrogate arithmetic against Python's utf-16-be codec
+        let out = std::process::Command::new("python3")
+            .arg("-c")
+            .arg("print(','.join(chr(c).encode('utf-16-be').hex() for c in (0x10000,0x1F600,0x2003E,0x10FFFF,0xFFFF,0xE000)))")
+            .output()
+            .expect("python3");
+        let py = String::from_utf8(out.stdout).unwrap();
+        let want: Vec<String> = ['\u{10000}', '\u{1F600}', '\u{2003E}', '\u{10FFFF}', '\u{FFFF}', '\u{E000}']
+            .iter()
+            .map(|c| hex(&string_to_utf16be(&c.to_string())).to_lowercase())
+            .collect();
+        assert_eq!(py.trim(), want.join(","));
+    }
+
+    /// The ToUnicode CMaps inside the repository's qpdf/pypdf-era fixtures must parse strictly
+    /// and map at least one code to well-formed UTF-16 (smoke test on real producer output).
+    #[test]
+    fn real_world_tounicode_streams_parse() {
+        let dir = std::path::Path::new("/repo/oxidize-pdf-core/tests/fixtures");
+        let mut seen = 0;
+        let mut parsed = 0;
+        for name in ["issue_272_boe_sumario_2025_01_15.pdf", "issue_272_higgs_arxiv_1207_7214.pdf", "Cold_Email_Hacks.pdf"] {
+            let Ok(bytes) = std::fs::read(dir.join(name)) else { continue };
+            let Ok(f) = crate::file::PdfFile::parse(&bytes) else { continue };
+            for n in f.live_objects() {
+                let o = f.get(n);
+                let Some(d) = o.as_dict() else { continue };
+                let Some(tu) = d.get("ToUnicode") else { continue };
+                let s = f.resolve(tu);
+                let Some(st) = s.as_stream() else { continue };
+                let Ok(data) = f.stream_data(st) else { continue };
+                seen += 1;
+                match CMap::parse(&data) {
+                    Ok(m) => {
+                        parsed += 1;
+                        assert!(!m.codespace.is_empty(), "{name} obj {n}");
+                        let any = m.entries.iter().any(|e| match e {
+                            Entry::BfChar { dst, .. } | Entry::BfRange { dst, .. } => utf16be_to_string(dst).is_some(),
+                            Entry::BfRangeArray { dsts, .. } => dsts.iter().all(|d| utf16be_to_string(d).is_some()),
+                            _ => false,
+                        });
+                        assert!(any || m.entries.is_empty(), "{name} obj {n}");
+                    }
+                    Err(e) => panic!("{name} obj {n}: {e}\n{}", String::from_utf8_lossy(&data[..data.len().min(400)])),
+                }
+            }
+        }
+        eprintln!("ToUnicode streams seen={seen} parsed={parsed}");
+        assert!(seen >= 9 && seen == parsed, "seen={seen} parsed={parsed}");
+    }
+}
